@@ -127,14 +127,23 @@ def int_arg(v, form=None):
     import pywbem
     if v == 'x':
         return 2.5
-    if form and isinstance(v, int) and not isinstance(v, bool):
-        if form == 'u32' and 0 <= v < 2 ** 32:
-            return pywbem.Uint32(v)
-        if form == 'u64' and 0 <= v < 2 ** 64:
-            return pywbem.Uint64(v)
-        if form == 'bool' and v in (0, 1):
-            return bool(v)
+    f = applied_form(v, form)
+    if f == 'u32':
+        return pywbem.Uint32(v)
+    if f == 'u64':
+        return pywbem.Uint64(v)
+    if f == 'bool':
+        return bool(v)
     return v
+
+
+def applied_form(v, form):
+    """the form the value is really passed in (a form that cannot represent the value falls back to plain int)"""
+    if form and isinstance(v, int) and not isinstance(v, bool):
+        if (form == 'u32' and 0 <= v < 2 ** 32) or (form == 'u64' and 0 <= v < 2 ** 64) or \
+                (form == 'bool' and v in (0, 1)):
+            return form
+    return None
 
 
 def eff_int(v, form):
@@ -449,8 +458,8 @@ class Real:
                  'flag_before': None, 'expected_fb': expected_fb}
             self.meta[j] = m
             self.model_ev = {'ev': 'call', 'fam': fam, 'ns': ev['ns'], 'terr': terr,
-                             'objs': [self.code(o) for o in expected], 'max': eff_int(ev['max'], ev.get('maxform')),
-                             'timeout': eff_int(ev['timeout'], ev.get('toform')),
+                             'objs': [self.code(o) for o in expected], 'max': ev['max'], 'maxform': applied_form(ev['max'], ev.get('maxform')),
+                             'timeout': ev['timeout'], 'toform': applied_form(ev['timeout'], ev.get('toform')),
                              'lang': ev['lang'], 'query': bool(ev['query']) or fam == 6, 'coe': ev['coe'] is not None,
                              'rqrc': ev['rqrc'] is not None, 'coetype': ev['coe'] == 'x',
                              'filtertype': fam != 6 and ev.get('ftype') is not None,
